@@ -121,7 +121,7 @@ RandSelectors == {".x", ".y", "#i", "div[ad]", ".x > .y", "#i .x", ".x.y"}
 ValidRule(r) == /\ ~(r.unhide /\ \E l \in r.locs : l.neg)
                 /\ (r.locs = {} => r.kind = "hide" /\ ~r.unhide)
                 /\ (r.kind = "js" /\ r.sel = "" => r.unhide)
-RuleSpace ==
+RuleSpace == IF U # "rand" THEN {} ELSE
   { r \in ( { [C0 EXCEPT !.locs = ls, !.unhide = u, !.kind = "hide", !.sel = sl] : ls \in LocSets, u \in BOOLEAN, sl \in RandSelectors }
          \cup { [C0 EXCEPT !.locs = ls, !.unhide = u, !.kind = k, !.sel = sl, !.arg = (IF k = "remove" THEN "" ELSE "v")] :
                   ls \in LocSets, u \in BOOLEAN, k \in {"style", "remove", "remove-attr", "remove-class"}, sl \in {".x", "#i .x"} }
